@@ -112,6 +112,10 @@ REWRITES = {
         (CLIP_TEST, "    if (end_time <= clip_start + minimum_overlap) or (\n        start_time >= clip_end - minimum_overlap\n    ):\n"
                     "        return False\n\n    return True\n"),
     ])],
+    # the library hardens the data model: geometries become frozen (assignment is refused) ...
+    "W5-frozen-geometries": [(GEO, [(BASE_CFG, "    model_config = ConfigDict(allow_inf_nan=False, frozen=True)\n")])],
+    # ... or assignments are validated (raw tuples / ints are coerced to lists of floats)
+    "W6-validate-assignment": [(GEO, [(BASE_CFG, "    model_config = ConfigDict(allow_inf_nan=False, validate_assignment=True)\n")])],
 }
 
 MUTANTS = {
